@@ -32,6 +32,7 @@ type Program struct {
 	cg     *callgraph.Graph
 	// type errors of module packages
 	Errors []string
+	exprAt map[token.Pos]string
 }
 
 func goEnv(goos, goarch string) []string {
@@ -316,4 +317,29 @@ func FuncDecl(pk *packages.Package, recv, name string) *ast.FuncDecl {
 		}
 	}
 	return nil
+}
+
+// ExprText returns the source text of the index or slice expression whose '[' is at pos
+// ("" when there is none: range loops, synthesized code).
+func (p *Program) ExprText(pos token.Pos) string {
+	if !pos.IsValid() {
+		return ""
+	}
+	if p.exprAt == nil {
+		p.exprAt = map[token.Pos]string{}
+		for _, pk := range p.Pkgs {
+			for _, f := range pk.Syntax {
+				ast.Inspect(f, func(n ast.Node) bool {
+					switch x := n.(type) {
+					case *ast.IndexExpr:
+						p.exprAt[x.Lbrack] = types.ExprString(x)
+					case *ast.SliceExpr:
+						p.exprAt[x.Lbrack] = types.ExprString(x)
+					}
+					return true
+				})
+			}
+		}
+	}
+	return p.exprAt[pos]
 }
